@@ -397,7 +397,7 @@ class SemGen:
             op = r.choice(BIN[level])
             rhs = self.ex(d - 1, level - 1)
             if op in ("/", "%"):
-                rhs = ["("] + rhs + ["|", "1", ")"]
+                rhs = ["("] + rhs + ["|", "1UL", ")"]      # unsigned and non-zero: no SIGFPE (x/0, INT_MIN/-1)
             if op in ("<<", ">>"):
                 rhs = ["("] + rhs + ["&", "15", ")"]
             return self.ex(d - 1, level) + [op] + rhs
@@ -612,7 +612,7 @@ class ProgSemGen:
             op = r.choice(["+", "-", "*", "&", "|", "^", "<", ">", "<=", "==", "!=", "&&", "||", "<<", ">>", "/", "%"])
             rhs = self.ex(d - 1)
             if op in ("/", "%"):
-                rhs = "(" + rhs + " | 1)"
+                rhs = "(" + rhs + " | 1UL)"                # unsigned and non-zero: no SIGFPE (x/0, INT_MIN/-1)
             if op in ("<<", ">>"):
                 rhs = "(" + rhs + " & 7)"
             return self.ex(d - 1) + " " + op + " " + rhs
